@@ -68,6 +68,12 @@ def code_unit(data, name, unit):
     return data[name] / units_dict[unit]
 
 
+def in_scale(date, scale):
+    """The date expressed in the time system ``scale`` (name); the date itself when it
+    already is: change_scale() goes through datetime and rounds to the microsecond"""
+    return date if date.scale.name == scale else date.change_scale(scale)
+
+
 def parse_date(string, scale):
     """Parse a date formated as described in the CCSDS Blue Books"""
 
